@@ -411,3 +411,99 @@ Example C15_message_grouped_examples :
    E TOLERANT "MSH|^~\&|a|b|c|d|20200101||XXX^Y01|1|P|2.5" = 0 /\
    E TOLERANT "PID|1" = 101).
 Proof. vm_compute. repeat split; reflexivity. Qed.
+
+(* ============================================================================================ *)
+(* validate(return_errors=True) returns a report instead of raising - MESSAGE LEVEL.
+   Model/Validate.v v_message / v_node (Message.validate(): _is_valid over the Message, its Groups and
+   Segments, with the Group/Message find_child_reference lookups, the cardinality and allowed-children
+   checks) makes the partial operations explicit: a malformed or reference-less row (TypeError), el.datatype
+   on a Group (ChildNotFound), a Segment held against a leaf reference (AttributeError), plus everything
+   of the segment level.  None is reachable on a Message that parse_message returned: for EVERY text,
+   both find_groups modes, both validation levels, every shipped version (MSH-12 or the default), and
+   whatever level / delimiters (lvl', e') the validator reads.  Proof: Proofs/ValidateTotalMsg.v (tree
+   invariant `nok`: every group carries the structure of the group table's entry of its name, is a
+   declared child of its parent and lies on a path to a segment row the search found - a new invariant of
+   the loop of Model/Groups.v, which is what keeps the reference-less rows of the v2.1 ORU_R03 groups out
+   of every parsed tree; every segment is validated against the segment table's entry of its name, the
+   segment-level theorem above) and Proofs/ValidateTotalMsgTables.v (table premise `msg_tables_ok`, one
+   kernel-evaluated check over all shipped tables). *)
+From HL7 Require Import Proofs.ValidateTotalMsg Proofs.ValidateTotalMsgTables.
+
+Theorem C15_validate_message_total : forall dflt lvl find_groups (text : str) t m lvl' e',
+  parse_message tables_of dflt lvl find_groups text = Ok (t, m) ->
+  exists errs, validate_message_errors t lvl' e' m = Ok errs.
+Proof.
+  intros dflt lvl fg text t m lvl' e' H.
+  destruct (shipped_parse_message_validates dflt lvl fg text t m lvl' e' H) as [log E].
+  unfold validate_message_errors, validate_message_log, lift_errors. rewrite E. eauto.
+Qed.
+Print Assumptions C15_validate_message_total.
+
+(* through the public wrapper: Message.validate(return_errors=True) returns the report *)
+Theorem C15_validate_message_returns_report : forall dflt lvl find_groups (text : str) t m lvl' e' has_report,
+  parse_message tables_of dflt lvl find_groups text = Ok (t, m) ->
+  exists r, fst (validate_wrapper true has_report (validate_message_log t lvl' e' m)) = VReturned r.
+Proof.
+  intros dflt lvl fg text t m lvl' e' hr H.
+  destruct (shipped_parse_message_validates dflt lvl fg text t m lvl' e' H) as [log E].
+  unfold validate_message_log. rewrite E. cbn. eauto.
+Qed.
+Print Assumptions C15_validate_message_returns_report.
+
+Theorem C15_parse_validate_never_raises : forall dflt lvl find_groups (text : str) t m lvl' e' x,
+  parse_message tables_of dflt lvl find_groups text = Ok (t, m) ->
+  validate_message_errors t lvl' e' m <> Err x.
+Proof.
+  intros dflt lvl fg text t m lvl' e' x H.
+  destruct (C15_validate_message_total dflt lvl fg text t m lvl' e' H) as [errs ->]. discriminate.
+Qed.
+Print Assumptions C15_parse_validate_never_raises.
+
+(* the sentence of the property as a whole, with the validator reading the message's own level and the
+   delimiters the message reads from its MSH: "for any message that parsed, to_er7() succeeds and
+   validate(return_errors=True) returns a report instead of raising" *)
+Theorem C15_parsed_message_encodes_and_validates : forall dflt lvl find_groups (text : str) t m,
+  parse_message tables_of dflt lvl find_groups text = Ok (t, m) ->
+  exists x e errs, enc_message t lvl m = Ok x /\ message_ec (t_version t) m = Ok e /\
+                   validate_message_errors t lvl e m = Ok errs.
+Proof.
+  intros dflt lvl fg text t m H.
+  destruct (Proofs.NoCrashGrouped.parse_message_encodes dflt lvl fg text t m H) as [x Hx].
+  unfold enc_message in Hx. destruct (message_ec (t_version t) m) as [e|] eqn:He; [|discriminate].
+  destruct (C15_validate_message_total dflt lvl fg text t m lvl e H) as [errs Hv].
+  exists x, e, errs. unfold enc_message. rewrite He. auto.
+Qed.
+Print Assumptions C15_parsed_message_encodes_and_validates.
+
+(* for ANY tables satisfying the segment-level premises and any message tree satisfying the invariant
+   `mok` (the statement does not depend on the shipped data) *)
+Theorem C15_validate_message_total_general : forall t lvl e m,
+  base t (Some (unbs "ST")) = true -> base t (Some (unbs "varies")) = false ->
+  (forall n r, slookup n (t_fields t) = Some r -> ValidateTotal.gref t r) ->
+  (forall n r, slookup n (t_components t) = Some r -> ValidateTotal.gref t r) ->
+  mok t m -> exists log, v_message t lvl e m = Ok log.
+Proof. intros t lvl e m H1 H2 H3 H4. exact (v_message_total t H1 H2 H3 H4 lvl e m). Qed.
+Print Assumptions C15_validate_message_total_general.
+
+(* the hypotheses are satisfiable and the validator really runs (numbers of errors, the same as hl7apy
+   reports): a grouped ORU_R01 with a
+   Z-segment, the flat parse of the same text, a message whose structure is unknown (no report lines but
+   "Unknown element"), a Z-message, a v2.1 ORU^R03 (whose groups carry rows without reference: they are
+   never opened, PID stays at top level) *)
+Example C15_validate_message_examples :
+  (let V dflt lvl fg (s : str) :=
+     match parse_message tables_of dflt lvl fg s with
+     | Ok (t, m) => match message_ec (t_version t) m with
+                    | Ok e => match validate_message_errors t lvl e m with Ok l => Some (length l) | Err _ => None end
+                    | Err _ => None
+                    end
+     | Err _ => Some 99
+     end in
+   let oru : str := ("MSH|^~\&|a|b|c|d|20200101||ORU^R01|1|P|2.5" ++ [CR] ++ "PID|1" ++ [CR] ++ "ZXX|q" ++ [CR] ++
+                     "OBR|1" ++ [CR] ++ "OBX|1" ++ [CR] ++ "OBR|2" ++ [CR] ++ "OBX|1")%list in
+   V "2.5" TOLERANT true oru = Some 8 /\ V "2.5" TOLERANT false oru = Some 2 /\ V "2.5" STRICT true oru = Some 8 /\
+   V "2.5" TOLERANT true "MSH|^~\&|a|b|c|d|20200101||XXX^Y01|1|P|2.5" = Some 1 /\
+   V "2.5" TOLERANT true ("MSH|^~\&|a|b|c|d|20200101||ZAB^Z01|1|P|2.5" ++ [CR] ++ "PID|1")%list = Some 2 /\
+   V "2.5" TOLERANT true ("MSH|^~\&|a|b|c|d|20200101||ORU^R03|1|P|2.1" ++ [CR] ++ "PID|1" ++ [CR] ++ "OBX|1")%list = Some 3 /\
+   V "2.1" TOLERANT true ("MSH|^~\&|a|b|c|d|20200101||ORU^R03|1|P" ++ [CR] ++ "PID|1" ++ [CR] ++ "OBX|1")%list = Some 4).
+Proof. vm_compute. repeat split; reflexivity. Qed.
